@@ -207,6 +207,8 @@ func (d *Object) UnmarshalJSON(data []byte) error {
 		return err
 	}
 	if d.Schema == UnknownID {
+		// whatever this object held before is no part of what it reads
+		d.payload = nil
 		return nil // return silently
 	}
 
